@@ -14,7 +14,7 @@ Definition used_codes : list Z := [48; 78; 84; 70; 46; 83; 105; 108; 102; 120; 1
 Definition cfg_ok (c : cfg) : Prop := forallb (code_ok c) used_codes = true /\ vge c [3; 0] = true.
 
 (* code objects (dump_code3 layout, Python 3.0-3.10): what the proof needs of the reader's version tests *)
-Definition posonly_read (c : cfg) : bool := vge c [3; 8] && negb (zmem (magic_int c) [3400; 3401; 3410; 3411]).
+Definition posonly_read (c : cfg) : bool := vge c [3; 8] && negb (zmem (magic_int c) [3400; 3401]).
 Definition default_pos (c : cfg) : Z := if vge c [3; 8] then 0 else -1.
 Definition code_cfg_ok (c : cfg) (has_pos : bool) : Prop :=
   code_ok c 99 = true /\ vge c [3; 11] = false /\ vge c [2; 3] = true /\ vge c [1; 3] = true /\ vge c [2; 0] = true /\ vge c [1; 5] = true
@@ -76,7 +76,7 @@ Qed.
 (* posonlyargcount: dump_code3 writes it iff the code type has it; the reader reads it iff its version does, else supplies a default *)
 Lemma read_pos c hp pos L : posonly_read c = hp -> (if hp then in32 pos else pos = default_pos c) ->
   (if vge c [3; 8]
-   then (if zmem (magic_int c) [3400; 3401; 3410; 3411] then Ok (0, (if hp then w_long pos else []) ++ L)
+   then (if zmem (magic_int c) [3400; 3401] then Ok (0, (if hp then w_long pos else []) ++ L)
          else read_s32 c ((if hp then w_long pos else []) ++ L))
    else Ok (-1, (if hp then w_long pos else []) ++ L)) = Ok (pos, L).
 Proof.
